@@ -10,11 +10,12 @@ import (
 
 // The cell alphabet: separators of every format, quote, CR, LF, tab,
 // backslash, space, '#', '|', '-', ':', apostrophe, a 2-byte UTF-8 letter, an
-// invalid UTF-8 byte, a plain letter; the empty string is the 18th symbol.
-var sigma = []string{"a", ",", "\"", "\n", "\r", "\t", "\\", " ", "=", "#", "|", "-", ";", ":", "'", "é", "\xff"}
+// invalid UTF-8 byte, a plain letter, two C0 control bytes whose low nibble is above 9 (VT 0x0b, ESC 0x1b: their
+// JSON escapes need hex letters); the empty string is the 20th symbol.
+var sigma = []string{"a", ",", "\"", "\n", "\r", "\t", "\\", " ", "=", "#", "|", "-", ";", ":", "'", "é", "\xff", "\x0b", "\x1b"}
 
 var sigmaNames = map[string]string{"a": "a", ",": "comma", "\"": "dquote", "\n": "LF", "\r": "CR", "\t": "TAB", "\\": "backslash", " ": "space",
-	"=": "equals", "#": "hash", "|": "pipe", "-": "dash", ";": "semicolon", ":": "colon", "'": "apostrophe", "é": "e-acute", "\xff": "xFF", "": "empty"}
+	"=": "equals", "#": "hash", "|": "pipe", "-": "dash", ";": "semicolon", ":": "colon", "'": "apostrophe", "é": "e-acute", "\xff": "xFF", "\x0b": "VT", "\x1b": "ESC", "": "empty"}
 
 // words(n): every string of at most n symbols, shortest first.
 func words(n int) []string {
@@ -72,6 +73,18 @@ func enumerate(quick bool, emit emitFn) {
 			for _, v := range W2 {
 				emit("1x1-key-value", stream{one(k, v)})
 			}
+		}
+	}
+	// F1b: every single byte 0x00..0xff (beyond the alphabet), alone and between letters, as value and as key
+	for b := 0; b < 256; b++ {
+		c := string([]byte{byte(b)})
+		emit("1x1-byte-value", stream{one("a", c)})
+		emit("1x1-byte-value", stream{one("a", "x"+c+"y")})
+		emit("1x1-byte-positional", stream{one("1", c)})
+		emit("1x3-byte-value", stream{rec{{"a", "x"}, {"b", c}, {"c", "z"}}})
+		if c != "a" {
+			emit("1x1-byte-key", stream{one(c, "b")})
+			emit("1x1-byte-key", stream{one("k"+c, "b")})
 		}
 	}
 	// positional key (for the formats that carry no names)
@@ -321,7 +334,7 @@ func enumerate(quick bool, emit emitFn) {
 // keys; they are run as they are (outside the domain: weak idempotence only).
 func familyIsPositional(f string) bool {
 	switch f {
-	case "1x1-positional", "1x3-positional", "1x3-positional-pair", "2x2-positional", "2x1-positional-pair", "het-positional", "wide-positional", "wide-2rec-positional":
+	case "1x1-positional", "1x1-byte-positional", "1x3-positional", "1x3-positional-pair", "2x2-positional", "2x1-positional-pair", "het-positional", "wide-positional", "wide-2rec-positional":
 		return true
 	}
 	return false
